@@ -377,9 +377,13 @@ Definition rkeys (st : msettings) : list nat := firstn (length (m_on st)) (tcols
 
 (* Merger::extract_selections + execute_batch: sides are recognised by "not all key columns NULL";
    `when_matched != DoNothing` updates (so Fail is treated like UpdateAll here) *)
+Definition side_left (st : msettings) (j : jrow) : bool :=
+  existsb is_some (map (src_get (m_scols st) (js j)) (lkeys st)).
+Definition side_right (st : msettings) (j : jrow) : bool :=
+  existsb is_some (map (fun c => nth c (jt j) None) (rkeys st)).
 Definition merger_action (st : msettings) (j : jrow) : action :=
-  let in_left := existsb is_some (map (src_get (m_scols st) (js j)) (lkeys st)) in
-  let in_right := existsb is_some (map (fun c => nth c (jt j) None) (rkeys st)) in
+  let in_left := side_left st j in
+  let in_right := side_right st j in
   if in_left && in_right then
     match m_wm st with
     | WmDoNothing => ANothing
